@@ -79,6 +79,9 @@ def gen_cases(tier, seed):
     for k in range(8 if tier == "quick" else 40):
         cases.append({"id": "constraint/%03d" % k, "kind": "constraint", "k": k, "seed": seed, "base": "constraint", "tpl": "constraint",
                       "group": "cn%d" % k, "lane": "plain", "cost": 2})
+    for k in range(8 if tier == "quick" else 48):
+        cases.append({"id": "vector/%03d" % k, "kind": "vector", "k": k, "seed": seed, "base": "vector", "tpl": "vector",
+                      "group": "vc%d" % k, "lane": "plain", "cost": 2})
     for k in range(4 if tier == "quick" else 40):
         cases.append({"id": "sldmag/%03d" % k, "kind": "sldmag", "k": 8000 + k, "seed": seed, "base": "sldmag", "tpl": "sldmag",
                       "group": "sm%d" % k, "lane": "plain", "cost": 2})
@@ -230,6 +233,13 @@ def build_translation(info, tpl, rng, pars0, keep_name=False):
     return tpl, new, st, repl, feeds
 
 
+INTER_NAMES = {"shell", "form", "mode", "qab", "F1", "weight", "F2", "pd_norm"}
+
+
+def _is_inter(lhs):
+    return lhs.startswith("t_") or lhs in INTER_NAMES
+
+
 def translate(st, newvals, basevals):
     env = dict(basevals)
     env.update(newvals)
@@ -239,7 +249,7 @@ def translate(st, newvals, basevals):
         env[lhs] = val
         if lhs in basevals or lhs in out:
             out[lhs] = val
-        elif not lhs.startswith("t_"):
+        elif not _is_inter(lhs):
             out[lhs] = val
     return {k2: v2 for k2, v2 in out.items()}, env
 
@@ -305,6 +315,73 @@ def run_constraint(case, rec):
     rec.check("untouched_parameters_preserved", refused, {"base": base, "translation": text, "note": "the tied parameter %s was accepted as an argument" % tied[0]})
     rec.bucket("translation-without-new-parameters", "dim:" + dim)
     rec.set_shape(("constraint", base, k), True)
+
+
+VECTORS = [
+    # (base, new parameters, translation, python translation, the call parameter that carries the distribution)
+    ("core_shell_sphere", [["r[2]", "Ang", 40.0, [0, np.inf], "volume", "core radius, shell thickness"]],
+     "radius = r[0]\nthickness = r[1]", lambda v: {"radius": v["r1"], "thickness": v["r2"]}, ["r1", "r2"]),
+    ("core_multi_shell", [["core_ratio", "", 3.0, [0, np.inf], "", "core radius : first shell thickness"]],
+     "radius = core_ratio*thickness[0]", lambda v: {"radius": v["core_ratio"]*v["thickness1"]}, ["thickness1", "thickness2"]),
+]
+
+
+def run_vector(case, rec):
+    """Translations that involve vector parameters (a new vector parameter, or an element of a base vector parameter read by
+    the translation): a size distribution on an element is the weighted mean of the base model over that element's mesh,
+    in 1-D as in 2-D."""
+    from sasmodels import core as sascore, direct_model, weights
+    k = case["k"]
+    base, new, text, pyt, elements = VECTORS[k % len(VECTORS)]
+    rng = core.rng_for(case["seed"], PROP, "vector", k)
+    bi = sas.info(base)
+    try:
+        info = sascore.reparameterize(bi, new, text, name="rtm16_vec_%d" % (k % len(VECTORS)))
+        model = sascore.build_model(info, platform="dll")
+    except Exception as exc:
+        rec.check("reparameterize_accepts_valid_definition", False, {"base": base, "translation": text, "exception": repr(exc)[:800]})
+        return
+    bm = sas.build(base)
+    vals = {"scale": float(rng.uniform(0.5, 2)), "background": float(rng.uniform(0, 0.1))}
+    for p_ in info.parameters.call_parameters[2:]:
+        if p_.type == "magnetic":
+            continue
+        if p_.type == "sld":
+            vals[p_.name] = float(rng.uniform(0.5, 6))
+        elif p_.name == "n":
+            vals[p_.name] = 2.0
+        elif p_.name == "core_ratio":
+            vals[p_.name] = float(rng.uniform(2, 4))
+        else:
+            vals[p_.name] = float(rng.uniform(15, 45))
+    el = elements[(k // len(VECTORS)) % len(elements)]
+    dist = ["gaussian", "schulz", "rectangle"][(k // 4) % 3]
+    pd = {"_pd": float(rng.uniform(0.1, 0.3)), "_pd_n": int(rng.integers(4, 9)), "_pd_nsigma": 1.7 if dist == "rectangle" else 2.5,
+          "_pd_type": dist}
+    rp = dict(vals, **{el + s_: x_ for s_, x_ in pd.items()})
+    dim = "2d" if (k // 2) % 2 else "1d"
+    q = [np.exp(rng.uniform(math.log(0.004), math.log(0.2), 4))]
+    if dim == "2d":
+        q = [q[0]*math.cos(0.5), q[0]*math.sin(0.5)]
+    I = np.asarray(direct_model.call_kernel(model.make_kernel(q), dict(rp)), float)
+    pts, wts = weights.get_weights(dist, pd["_pd_n"], pd["_pd"], pd["_pd_nsigma"], vals[el], (0.0, np.inf), True)
+    bk = bm.make_kernel(q)
+    sF2, sV = np.zeros(len(q[0])), 0.0
+    bnames = {p_.name for p_ in bi.parameters.call_parameters}
+    for x_, w_ in zip(pts, wts):
+        v_ = dict(vals, **{el: float(x_)})
+        bp = {kk: vv for kk, vv in v_.items() if kk in bnames}
+        bp.update(pyt(v_))
+        F = direct_model.call_Fq(bk, dict(bp, scale=1.0, background=0.0))
+        sF2 += w_*np.asarray(F[1], float)
+        sV += w_*float(F[3])
+    exp = vals["scale"]*sF2/sV + vals["background"]
+    ok = core.close(I, exp, 1e-9, 1e-11*float(np.max(np.abs(exp))))
+    rec.check("dispersity_is_weighted_mean_of_base", ok,
+              None if ok else {"base": base, "translation": text, "values": rp, "dim": dim, "distribution_on": el, "observed": I,
+                               "weighted_mean_of_base": exp, "max_rel_err": core.maxrel(I, exp)}, key="C16/vector-element-distribution")
+    rec.bucket("translation-with-vector-parameter", "vector:" + ("new" if "[" in new[0][0] else "base-element-read"), "dim:" + dim)
+    rec.set_shape(("vector", base, el, dim, dist), True)
 
 
 def run_sldmag(case, rec):
@@ -454,12 +531,28 @@ def run_case(case, rec):
         return run_sldmag(case, rec)
     if case.get("kind") == "constraint":
         return run_constraint(case, rec)
+    if case.get("kind") == "vector":
+        return run_vector(case, rec)
     from sasmodels import core as sascore, direct_model
     base, k = case["base"], case["k"]
     bi = sas.info(base)
     rng = core.rng_for(case["seed"], PROP, k)
     pars0 = sas.base_pars(bi, case["seed"]*17 + k)
     tpl, new, st, repl, feeds = build_translation(bi, case["tpl"], rng, pars0, keep_name=(k % 3 == 1))
+    # the author's names for intermediate values: any identifier will do, including words the generated kernel uses itself
+    inter = [lhs for lhs, _ in st if lhs not in repl]
+    if inter and k % 2 == 0:
+        pool = sorted(INTER_NAMES)
+        mapping = {nm: pool[(k//2 + j_) % len(pool)] for j_, nm in enumerate(inter)}
+
+        def _ren(e):
+            if isinstance(e, tuple):
+                if len(e) == 2 and e[0] == "v" and e[1] in mapping:
+                    return ("v", mapping[e[1]])
+                return tuple(_ren(x) for x in e)
+            return e
+        st = [(mapping.get(lhs, lhs), _ren(e)) for lhs, e in st]
+        rec.bucket("intermediate-named-like-a-kernel-word")
     # the new parameters need not be size parameters as far as the table is concerned: every fourth case declares
     # them with an empty type (then no new parameter can carry dispersity; the base still has a volume)
     if k % 4 == 3 and tpl != "boundary":
@@ -470,7 +563,7 @@ def run_case(case, rec):
     rec.bucket("tpl:" + tpl, "lane:" + case.get("lane", "plain"))
     if any(n[0] in repl for n in new):
         rec.bucket("new-parameter-keeps-base-name")
-    text = "\n".join("        %s = %s" % (lhs, strip_outer(C(ast)) if lhs.startswith("t_") else C(ast)) for lhs, ast in st)
+    text = "\n".join("        %s = %s" % (lhs, strip_outer(C(ast)) if _is_inter(lhs) else C(ast)) for lhs, ast in st)
     # every fifth case puts a helper function for the translation into an additional C source file
     extra_source = None
     if k % 5 == 3 and st:
@@ -599,7 +692,7 @@ def run_case(case, rec):
         tpl2, new2, st2, repl2, feeds2 = build_translation(bi, tpl, rng2, pars0, keep_name=(k % 3 == 1))
         if tpl2 == tpl and [n[0] for n in new2] == [n[0] for n in new] and repl2 == repl:
             new2 = [n2[:4] + [n1[4]] + n2[5:] for n1, n2 in zip(new, new2)]
-            text2 = "\n".join("        %s = %s" % (lhs, strip_outer(C(ast)) if lhs.startswith("t_") else C(ast)) for lhs, ast in st2)
+            text2 = "\n".join("        %s = %s" % (lhs, strip_outer(C(ast)) if _is_inter(lhs) else C(ast)) for lhs, ast in st2)
             if text2 != text:
                 info2 = sascore.reparameterize(bi, new2, text2, insert_after=ia, name="rtm_rep_%04d" % k, **src_kw)
                 model2 = sascore.build_model(info2, platform="dll")
